@@ -7,7 +7,7 @@
    for |d|, the product of the squared norms, the zero vector. *)
 From Coq Require Import ZArith List Bool String.
 From Flocq Require Import IEEE754.BinarySingleNaN IEEE754.Binary IEEE754.Bits.
-From Verif Require Import Simd.Model Simd.Proofs Generated.Facts.
+From Verif Require Import Simd.NonNeg Simd.SelfZero Simd.Model Simd.Proofs Generated.Facts.
 Import ListNotations.
 Open Scope list_scope.
 
@@ -60,7 +60,32 @@ Theorem C15_cosine_overflow_refuted :
   bits (native_cosine v v) = 872415232 /\ bits (avx_cosine v v) = 1065353216 /\ bits (sse_cosine true v v) = 1065353216.
 Proof. exact cosine_overflow_refuted. Qed.
 
+
+(* "non-negative": for every pair of vectors - any lengths, any values, infinities and NaNs included - every kernel of
+   every implementation (portable, AVX, SSE aligned or not; Euclidean, Manhattan, cosine as the index calls it, i.e.
+   with the wrapper's absolute value) returns a NaN or a value whose sign bit is clear.  Never a negative number. *)
+Theorem C15_never_negative : forall a b al,
+  nn (native_euclid a b) /\ nn (native_manhattan a b) /\ nn (native_cosine a b) /\
+  nn (avx_euclid a b) /\ nn (avx_manhattan a b) /\ nn (avx_cosine a b) /\
+  nn (sse_euclid al a b) /\ nn (sse_manhattan al a b) /\ nn (sse_cosine al a b).
+Proof. exact never_negative. Qed.
+
+
+(* "zero between a vector and itself" for Euclidean and Manhattan: for every vector of finite values, of any length,
+   all six kernels return exactly +0 on (a, a).  (Cosine is not claimed: 1 - dot/(|a||a|) is only close to 0.) *)
+Theorem C15_self_distance_zero : forall a al, Forall fin a ->
+  native_euclid a a = fzero /\ native_manhattan a a = fzero /\
+  avx_euclid a a = fzero /\ avx_manhattan a a = fzero /\
+  sse_euclid al a a = fzero /\ sse_manhattan al a a = fzero.
+Proof. exact self_distance_zero. Qed.
+Example C15_self_distance_nonvacuous :
+  let a := map of_bits [1065353216; 3212836864; 0; 1; 2139095039; 1084227584; 1036831949; 3221225472; 1077936128] in
+  Forall fin a /\ bits (avx_euclid a a) = 0%Z /\ bits (sse_manhattan true a a) = 0%Z.
+Proof. split; [repeat constructor|]. split; vm_compute; reflexivity. Qed.
+
 Print Assumptions C15_reads_exact.
 Print Assumptions C15_lane_is_sequential.
 Print Assumptions C15_avx_short_exact.
 Print Assumptions C15_sse_short_exact.
+Print Assumptions C15_never_negative.
+Print Assumptions C15_self_distance_zero.
